@@ -248,7 +248,15 @@ def oracle_spec(ctx, sf, spec, via="text", check_state=True, check_code=True):
         p = ioir.build(spec)
         before = snapshot(p)
         try:
-            (to_blackbird(p) if ir == "blackbird" else to_xir(p))
+            irobj = (to_blackbird(p) if ir == "blackbird" else to_xir(p))
+            # the IR must name the operations and the subsystem indices of the program, command by command
+            # (also for programs that cannot be loaded again: registers with holes after Del / New)
+            named = [(o["op"], list(o["modes"])) for o in irobj.operations] if ir == "blackbird" else \
+                [(s_.name, [int(w) for w in s_.wires]) for s_ in irobj.statements]
+            want = [(type(c.op).__name__, [r.ind for r in c.reg]) for c in p.circuit]
+            if named != want:
+                bad = next((i for i, (a, b) in enumerate(zip(named, want)) if a != b), len(want))
+                ctx.fail(f"{tag}:ir-names-or-modes", f"{ir} IR command {bad}: {named[bad:bad + 1]} for {want[bad:bad + 1]} ({spec['name']})", rp)
         except Exception:  # noqa: BLE001
             pass
         if snapshot(p) != before:
